@@ -4,6 +4,7 @@ Property statements only; proofs of the helper lemmas are in `Lemmas/Include.lea
 Model: `Model/Include.lean` (mirrors `src/mechfs.rs`), spec: `Spec/Include.lean`.
 -/
 import MechVerif.Lemmas.Include
+import MechVerif.Lemmas.IncludeHelpers
 namespace MechVerif.Include
 
 /-- Loading always terminates with a result that is not "out of fuel": the fuel the
@@ -117,5 +118,58 @@ example : isCircular (load exCycle "a.mec".toList) = true := by decide
 example : Reach exCycle ["a.mec".toList] ["a.mec".toList] :=
   .trans (m := ["b.mec".toList]) (show _ ∈ targets _ _ by decide) (.step (show _ ∈ targets _ _ by decide))
 example : noIncludeLines exCycle [] none (splitLines "x\n```\n{a.mec}\n```\n".toList) = true := by decide
+
+/-! ### the line-level helpers as written
+
+`Gen/IncludeHelpers.lean` is regenerated from `src/mechfs.rs` by `tools/extract_include.py` on every run: the four
+helpers of the include expander as Lean definitions over `Model/IncludeIR.lean` (indexing, slicing and `usize`
+subtraction can panic).  Each of them computes the model's function for every line and never panics. -/
+section AsWritten
+open MechVerif.IncludeIR MechVerif.Gen.IncludeHelpers
+
+/-- `code_fence_delimiter` of the source = `codeFenceDelimiter` of the model: up to three leading spaces, a run of at
+    least three backticks or tildes; (marker, run length, position after the run). -/
+theorem C20_code_fence_delimiter_as_written (line : Text) :
+    code_fence_delimiter line = .ok (codeFenceDelimiter line) :=
+  code_fence_delimiter_eq line
+
+/-- `is_code_fence_close` of the source = `isFenceClose` of the model: same marker, at least the opening length,
+    nothing but blanks, tabs, `\r`, `\n` after the run. -/
+theorem C20_is_code_fence_close_as_written (line : Text) (marker : Char) (minLen : Nat) :
+    is_code_fence_close line marker minLen = .ok (isFenceClose line marker minLen) :=
+  is_code_fence_close_eq line marker minLen
+
+/-- `standalone_braced_content` of the source: the trimmed line starts with `{` and ends with `}` (then it has at least
+    two characters and the slice does not panic); returns what is between. -/
+theorem C20_standalone_braced_content_as_written (l : Text) :
+    standalone_braced_content l = .ok (standaloneBraced l) :=
+  standalone_braced_content_eq l
+
+/-- `looks_like_mech_include` of the source: the trimmed text ends in `.mec`. -/
+theorem C20_looks_like_mech_include_as_written (c : Text) :
+    looks_like_mech_include c = .ok (endsWith (trimWs c) ".mec".toList) :=
+  looks_like_mech_include_eq c
+
+/-- the two brace helpers composed as `expand_mechdown_include_tokens` composes them = `includeTarget` of the model. -/
+theorem C20_include_target_as_written (body : Text) :
+    includeTargetOf standalone_braced_content looks_like_mech_include body = .ok (includeTarget body) :=
+  includeTarget_eq body
+
+/-- consequences for the functions as written, on the cases that were seeded changes in this project: a closing fence
+    may be longer than the opening one but not shorter; three leading spaces are a fence, four are not; a `\r` after
+    the closing run is allowed; text after it is not. -/
+theorem C20_fence_cases_as_written :
+    is_code_fence_close "`````\n".toList '`' 3 = .ok true ∧
+    is_code_fence_close "```\n".toList '`' 4 = .ok false ∧
+    is_code_fence_close "```\r\n".toList '`' 3 = .ok true ∧
+    is_code_fence_close "``` x\n".toList '`' 3 = .ok false ∧
+    is_code_fence_close "~~~\n".toList '`' 3 = .ok false ∧
+    code_fence_delimiter "   ```mech\n".toList = .ok (some ('`', 3, 6)) ∧
+    code_fence_delimiter "    ```\n".toList = .ok none ∧
+    code_fence_delimiter "``\n".toList = .ok none := by
+  simp only [C20_is_code_fence_close_as_written, C20_code_fence_delimiter_as_written, Except.ok.injEq]
+  decide
+
+end AsWritten
 
 end MechVerif.Include
